@@ -85,10 +85,13 @@ func (c *Config) Parse() (err error) {
 		enc.NewStringComponent(enc.TypeKeywordNameComponent, "DV"),
 		enc.NewStringComponent(enc.TypeKeywordNameComponent, "ADS"),
 	)...)
-	c.advSyncActivePfxN = append(c.advSyncPfxN,
+	// The active and the passive prefix are both derived from advSyncPfxN.
+	// Append to a copy of it: when the slice has spare capacity, the second
+	// append would overwrite the last component of the first name.
+	c.advSyncActivePfxN = append(c.advSyncPfxN.Clone(),
 		enc.NewStringComponent(enc.TypeKeywordNameComponent, "ACT"),
 	)
-	c.advSyncPassivePfxN = append(c.advSyncPfxN,
+	c.advSyncPassivePfxN = append(c.advSyncPfxN.Clone(),
 		enc.NewStringComponent(enc.TypeKeywordNameComponent, "PSV"),
 	)
 	c.advDataPfxN = append(Localhop, append(c.routerNameN,
